@@ -15,4 +15,6 @@ def build() -> Spec:
     models_c.install(spec)
     service_c.install(spec)
     models_c.install_late(spec)
+    from . import views_c
+    views_c.install(spec)
     return spec
